@@ -48,6 +48,8 @@ conc("C01", "Stateless model checking of the real containers recompiled (go buil
 conc("C02", "Stateless model checking for linearizability: every program of 2 threads x 1 call, 3 threads x 1 call and 2 threads x (2,1) calls (thorough: also 2 x 2) over each type's single-element alphabet and 3 initial contents, EVERY interleaving of their lock/unlock/clock operations under the controlled scheduler (unbounded; iterative preemption bounding only if a budget is hit, reported); each execution's outcome (every return value + final Size/contents) must equal the outcome of some one-at-a-time run of the same calls on the same implementation that respects program order and the observed real-time order (brute force over <=24 orders).",
      "stateless DFS over all interleavings under a controlled scheduler + brute-force linearizability against sequential runs", "DESIGN.md §3 C02, §2.2-2.3")
 
+conc("C08", "Two exhaustive explorations of the real expiring Cache recompiled against the virtual clock. (A) cleanup off: explicit-state BFS (seqmc) to a FIXPOINT for every default expiry in {-1,0,5} over 3 (4) keys, values {\"\" (rejected),p,q} (and an int-valued cache where nothing is rejected), durations {Default, NoExpiration, 3, 7} and the operations Set, SetDefault, Update, Delete, Flush, DeleteExpired, MapToCache (every map over two keys incl. rejected values) and Advance(2) - time is an operation; durations are odd and the clock even, so no observation coincides with a deadline; the state key holds deadlines relative to now, which makes the space finite without a clock horizon (histories and waits of any length); in every reachable state Get, IsExpired, Count and List of every key are compared with a map-with-deadlines model; a second run moves the clock by 1 and accepts either answer at now == deadline. (B) cleanup on (interval 4): stateless exploration under the controlled scheduler of {script of <=3 operations, the library's own janitor goroutine with a virtual ticker, clock thread 4 x Advance(2)} at preemption bound 2 (3), for every default in {-1,0,5}; observations carry virtual-time brackets and only what the brackets decide is asserted; at the quiescent end (janitor parked after two more intervals) entries expired before the last processed tick must be gone, live and never-expiring ones present. Plus: the finaliser fired as an explicit event stops the janitor in every interleaving.",
+     "explicit-state BFS over real method calls with time as an operation (fixpoint) + stateless DFS over interleavings with the janitor goroutine on virtual time", "DESIGN.md §3 C08")
 conc("C17", "Stateless model checking of Memoize with x/sync/singleflight itself recompiled against the controlled runtime: programs of 2 threads x <=2 calls, 3 threads x 1 call and every sequential pattern up to length 4 (5) over keys {p,q}; the user function logs its executions, has latency 0/1/2 scheduling points and succeeds or fails by an explorer choice; every interleaving (unbounded for two threads, preemption bound 2-3 otherwise) incl. a clock thread for the expiring configuration and a program in which key q's computation parks forever. Oracle: per-key in-flight counter <= 1, every result traced to an execution that overlapped or preceded the call (an execution stays in flight until the Memoize call that started it returns, singleflight's documented joining window), errors never served to calls that start after the failed flight ended, no recomputation once a value was returned and not expired, keys never mixed or blocked.",
      "stateless DFS over all interleavings under a controlled scheduler incl. singleflight internals; invariants over execution/call logs", "DESIGN.md §3 C17")
 conc("C18", "Exhaustive bounded enumeration under the controlled runtime: After/Before for every n in -2..8 x every number of calls 0..12 (int and int8 counters), Once for 1..5 calls with a non-expiring and an expiring cache entry (clock advance between calls is an explorer choice), Retry/RetryWithDelay for every n in -2..8 x EVERY success/failure pattern of the callback (Choose inside the callback), RetryWithDelay on the virtual clock (blocks on time.After; discrete-event rule). Oracle: per-call invocation counters, returned values, attempt count, last error, consecutive attempts >= delay apart.",
